@@ -6,6 +6,7 @@
 //!   steelsim determinism <scenario> [--runs N]    (self test)
 
 mod c02;
+mod c02c;
 mod c03;
 mod c04;
 mod c05;
@@ -34,7 +35,7 @@ use serde_json::{json, Value};
 use std::time::Instant;
 
 fn scenarios() -> Vec<&'static dyn Scenario> {
-    vec![&c05::C05, &c04::C04, &c06::C06, &c07::C07, &c19::C19, &c15::THREADS_C15, &c15::THREADS_C16, &c17::C17, &c17w::C17W, &c17a::ARRIVAL_C17, &c08::C08, &c08d::C08D, &c14::C14, &c02::C02, &c20::C20, &c03::C03, &vmscript::Script]
+    vec![&c05::C05, &c04::C04, &c06::C06, &c07::C07, &c19::C19, &c15::THREADS_C15, &c15::THREADS_C16, &c17::C17, &c17w::C17W, &c17a::ARRIVAL_C17, &c08::C08, &c08d::C08D, &c14::C14, &c02::C02, &c02c::C02C, &c20::C20, &c03::C03, &vmscript::Script]
 }
 
 fn scenario_by_name(name: &str) -> &'static dyn Scenario {
